@@ -126,8 +126,10 @@ impl GLWEAutomorphismKeyCompressed<Vec<u8>> {
 
 impl<D: DataMut> ReaderFrom for GLWEAutomorphismKeyCompressed<D> {
     fn read_from<R: std::io::Read>(&mut self, reader: &mut R) -> std::io::Result<()> {
-        self.p = reader.read_u64::<LittleEndian>()? as i64;
-        self.key.read_from(reader)
+        let p = reader.read_u64::<LittleEndian>()? as i64;
+        self.key.read_from(reader)?;
+        self.p = p;
+        Ok(())
     }
 }
 
